@@ -1018,6 +1018,48 @@ def scripted_defaults(ctx, rng):
             shutil.rmtree(root, ignore_errors=True)
 
 
+def bulk_scopes(ctx, rng):
+    """Scopes with many members (an identity with 70 keys, a key with 70 certificates, a store with 70 identities): views list all of
+    them, and deleting the scope removes all of them - also the 65th and later."""
+    root = tempfile.mkdtemp(prefix='nvf-kc-')
+    try:
+        S = Store(root)
+        M = Model()
+        Z = T([C(b'id'), C(b'bulk')])
+        O = T([C(b'id'), C(b'other')])
+        w = {'scripted': True, 'op': ['bulk']}
+        apply_op(S, M, ('touch', Z), rng, ctx)
+        apply_op(S, M, ('touch', O), rng, ctx)
+        for _ in range(69):
+            apply_op(S, M, ('new_key', Z, 'ec', None, 'kc'), rng, ctx)
+        kz = next(iter(M.ids[Z]['keys']))
+        ko = next(iter(M.ids[O]['keys']))
+        for _ in range(69):
+            apply_op(S, M, ('import_cert', O, ko, (Z, kz)), rng, ctx)
+        for j in range(68):
+            apply_op(S, M, ('touch', T([C(b'many'), C(b'%03d' % j)])), rng, ctx)
+        check_invariants(ctx, S, M, w, 'building scopes with 70 members')
+        apply_op(S, M, ('reopen',), rng, ctx)
+        check_invariants(ctx, S, M, w, 'reopening a store with 70-member scopes')
+        apply_op(S, M, ('del_key', O, ko, 'kc'), rng, ctx)
+        check_invariants(ctx, S, M, w, 'deleting a key with 70 certificates')
+        apply_op(S, M, ('del_identity', Z), rng, ctx)
+        check_invariants(ctx, S, M, w, 'deleting an identity with 70 keys')
+        replay_pinned(ctx, S, M, w)
+        apply_op(S, M, ('touch', T([C(b'id'), C(b'after')])), rng, ctx)
+        check_invariants(ctx, S, M, w, 'creating an identity after the bulk deletion')
+        for n_ in [i for i in list(M.ids) if i[0] == C(b'many')]:
+            apply_op(S, M, ('del_identity', n_), rng, ctx)
+        check_invariants(ctx, S, M, w, 'deleting 68 identities')
+        ctx.event('bulk-scopes-history')
+        ctx.case(('bulk-scopes',), nontrivial=True)
+        S.close()
+    except Exception as e:   # noqa
+        ctx.report(f'scripted-history-raises:{type(e).__name__}@{raising_site(e)[0]}', f'{e!r}', {'scripted': True, 'op': ['bulk']})
+    finally:
+        shutil.rmtree(root, ignore_errors=True)
+
+
 def several_stores(ctx, rng):
     """Several stores (each with its own directory) open in one process, holding identities / keys of the SAME names (explicit
     key ids): every store signs with its own private keys, also after the other store created, replaced or deleted its key of
@@ -1084,8 +1126,10 @@ def run(ctx):
     several_stores(ctx, rng)
     scripted_defaults(ctx, rng)
     if ctx.shard == 0:
+        bulk_scopes(ctx, rng)
+    if ctx.shard == 0:
         fault_sweep(ctx, rng)
-    n = ctx.n(80, 20000)
+    n = ctx.n(60, 20000)
     for i in range(n):
         run_history(ctx, rng, rng.randint(5, 40), faults=(i % 3 == 2))
     need = ['invariant-scan', 'signer-judged', 'operation-repeated', 'crash-reopen', 'op-del_key', 'op-del_identity', 'op-reopen',
